@@ -14,6 +14,7 @@ import (
 
 	"github.com/hashicorp/raft"
 	"github.com/robustirc/robustirc/internal/raftlog"
+	"github.com/robustirc/robustirc/internal/robust"
 	"pgregory.net/rapid"
 	"verif.local/verif/vh"
 )
@@ -22,6 +23,10 @@ type c18LCase struct {
 	Proto  bool     `json:"store_in_protobuf_mode"`
 	Writer string   `json:"writer"`
 	Entry  c09Entry `json:"entry"`
+	// Convert: the store is closed and opened again in protobuf mode (the JSON -> protobuf
+	// conversion is one more writer) before the entry is read back
+	Convert bool   `json:"reopen_in_protobuf_mode"`
+	Offset  uint64 `json:"message_offset,omitempty"`
 }
 
 func c18LCheck(c c18LCase, dir string) (f *vh.Failure) {
@@ -30,11 +35,12 @@ func c18LCheck(c c18LCase, dir string) (f *vh.Failure) {
 			f = vh.Failf("logentry-codec-panic", "panic: %v", r)
 		}
 	}()
+	robust.MessageOffset = c.Offset
 	s, err := NewLevelDBStore(dir, true, c.Proto)
 	if err != nil {
 		return vh.Failf("open-error", "%v", err)
 	}
-	defer s.Close()
+	defer func() { s.Close() }()
 	switch c.Writer {
 	case "StoreLogs":
 		err = s.StoreLogs([]*raft.Log{c.Entry.raftLog()})
@@ -47,6 +53,16 @@ func c18LCheck(c c18LCase, dir string) (f *vh.Failure) {
 		return vh.Failf("write-error", "%s: %v", c.Writer, err)
 	}
 	me := &c09ModelEntry{e: c.Entry}
+	if c.Convert {
+		if err := s.Close(); err != nil {
+			return vh.Failf("close-error", "%v", err)
+		}
+		if s, err = NewLevelDBStore(dir, false, true); err != nil {
+			return vh.Failf("open-error", "reopen in protobuf mode: %v", err)
+		}
+		// the conversion may re-encode the payload of a command entry: same message, other bytes
+		me.mayConvert = c.Entry.Type == uint8(raft.LogCommand)
+	}
 	var viaGet raft.Log
 	if err := s.GetLog(c.Entry.Index, &viaGet); err != nil {
 		return vh.Failf("getlog-error", "GetLog: %v", err)
@@ -101,13 +117,19 @@ func TestVerifC18LogEntries(t *testing.T) {
 	rapid.Check(t, func(rt *rapid.T) {
 		c := c18LCase{Proto: rapid.Bool().Draw(rt, "protomode"), Writer: rapid.SampledFrom([]string{"StoreLogs", "StoreLog", "StoreLogProto"}).Draw(rt, "writer")}
 		c.Entry = genEntry(rt, genIndex(rt, nil))
+		c.Convert = rapid.IntRange(0, 2).Draw(rt, "convert") == 0
+		c.Offset = rapid.SampledFrom(c09Offsets).Draw(rt, "message_offset")
 		nz := 0
 		for _, b := range []bool{c.Entry.Term != 0, len(c.Entry.Ext) > 0, c.Entry.AppendedNs != 0, len(c.Entry.Data) > 0, c.Entry.Type != 0} {
 			if b {
 				nz++
 			}
 		}
-		rec.Case(vh.Fingerprint(c), nz >= 3, []string{"c18:writer-" + c.Writer}, func() interface{} { return c })
+		labels := []string{"c18:writer-" + c.Writer}
+		if c.Convert {
+			labels = append(labels, "c18:read-after-conversion")
+		}
+		rec.Case(vh.Fingerprint(c), nz >= 3, labels, func() interface{} { return c })
 		if f := runOne(c); f != nil {
 			if rec.Known(f.Signature) {
 				return
